@@ -58,12 +58,13 @@ func (b *Backends) ItemsDel() map[string]*Backend {
 
 func (b *Backends) Clear() {
 	nb := CreateBackends(len(b.shards))
-	for i := range nb.shards {
-		if len(nb.shards[i]) > 0 {
-			// flag only shards with at least one backend associated,
-			// so it has the chance to be updated (removed or cleaned)
-			// in the case the new state doesn't add any backend to it.
-			b.backendShardChanged(i)
+	for i := range b.shards {
+		if len(b.shards[i]) > 0 {
+			// flag, in the new state, only shards of the old state with at
+			// least one backend associated, so it has the chance to be
+			// updated (removed or cleaned) in the case the new state
+			// doesn't add any backend to it.
+			nb.backendShardChanged(i)
 		}
 	}
 	nb.itemsDel = b.items
